@@ -7,6 +7,7 @@
 #include <cstdlib>
 #include <exception>
 #include <iostream>
+#include <string>
 #include "simulation_initializer.hpp"
 
 int main(int argc, char** argv) {
@@ -18,7 +19,9 @@ int main(int argc, char** argv) {
     rl.rlim_cur = rl.rlim_max = 0; setrlimit(RLIMIT_CORE, &rl);
     try {
         simulation_initializer sim_init(argv[1], false);
-        printf("OUTCOME completed cells=%zu\n", sim_init.get_cell_lst().size());
+        std::string shape;      // nodes:faces of every cell handed over (read by C18's start-up stage)
+        for (auto& c : sim_init.get_cell_lst()) shape += (shape.empty() ? "" : ",") + std::to_string(c->get_nb_of_nodes()) + ":" + std::to_string(c->get_nb_of_faces());
+        printf("OUTCOME completed cells=%zu shape=%s\n", sim_init.get_cell_lst().size(), shape.c_str());
     } catch (std::exception const& e) {
         std::string w = e.what();
         for (auto& ch : w) if (ch == '\n') ch = ' ';
